@@ -578,6 +578,53 @@ func rbacListSection() {
 			}
 		}
 	}
+	// how the ROC-admin group name is overridden:
+	//   rocAdminUser := aetherROCAdmin
+	//   if override := os.Getenv(X); override != "" { rocAdminUser = override }      -> "getenvNonEmpty"
+	//   if override, ok := os.LookupEnv(X); ok { rocAdminUser = override }             -> "lookupPresent"
+	rocMode, rocEnv, rocDefault := "none", "", "other"
+	if d := localDef(fn.Body, "rocAdminUser"); d != nil {
+		if v, ok := stringValue(file, d); ok {
+			rocDefault = v
+		}
+	}
+	for _, st := range fn.Body.List {
+		ifs, ok := st.(*ast.IfStmt)
+		if !ok || ifs.Init == nil || len(ifs.Body.List) != 1 {
+			continue
+		}
+		as, ok := ifs.Body.List[0].(*ast.AssignStmt)
+		if !ok || len(as.Lhs) != 1 || exprString(as.Lhs[0]) != "rocAdminUser" {
+			continue
+		}
+		rocMode = "other"
+		init, ok := ifs.Init.(*ast.AssignStmt)
+		if !ok || len(init.Rhs) != 1 || len(as.Rhs) != 1 {
+			continue
+		}
+		call, ok := init.Rhs[0].(*ast.CallExpr)
+		if !ok || len(call.Args) != 1 || len(init.Lhs) == 0 || exprString(as.Rhs[0]) != exprString(init.Lhs[0]) {
+			continue
+		}
+		name, okName := stringValue(file, call.Args[0])
+		if !okName {
+			continue
+		}
+		rocEnv = name
+		switch exprString(call.Fun) {
+		case "os.Getenv":
+			if be, ok := ifs.Cond.(*ast.BinaryExpr); ok && be.Op == token.NEQ && len(init.Lhs) == 1 && exprString(be.X) == exprString(init.Lhs[0]) {
+				if lit, ok := stringValue(file, be.Y); ok && lit == "" {
+					rocMode = "getenvNonEmpty"
+				}
+			}
+		case "os.LookupEnv":
+			if id, ok := ifs.Cond.(*ast.Ident); ok && len(init.Lhs) == 2 && id.Name == exprString(init.Lhs[1]) {
+				rocMode = "lookupPresent"
+			}
+		}
+	}
+	fmt.Fprintf(&out, "/-- the ROC-admin group name: its default, the environment variable that overrides it and when the override applies (`getenvNonEmpty` = only a non-empty value; `lookupPresent` = whenever the variable is defined, even empty; `none` = never) -/\ndef listRocDefault : String := %s\ndef listRocEnv : String := %s\ndef listRocOverride : String := %s\n\n", leanStr(rocDefault), leanStr(rocEnv), leanStr(rocMode))
 	fmt.Fprintf(&out, "/-- the entity loop: filter applied when this environment variable is non-empty; `anyGroup` = a target is appended once if some group satisfies the condition; else-branch appends unconditionally -/\ndef listGuardEnv : String := %s\ndef listShape : String := %s\ndef listElseAppends : Bool := %v\ndef listAtoms : List (String × String × String) := %s\n\n", leanStr(guardEnv), leanStr(shape), elseAppends, leanAtoms(atoms))
 
 	// groups in Get: guard key and separator
